@@ -979,6 +979,24 @@ class CallEv:
         self.site = H.sp(node)
 
 
+def _lines_of_parts(parts):
+    """the parts of a template cut after every newline of its literal text"""
+    lines = [[]]
+    for p in parts:
+        if p[0] != "lit" or "\n" not in p[1]:
+            lines[-1].append(p)
+            continue
+        chunks = p[1].split("\n")
+        for i, ch in enumerate(chunks):
+            last = i == len(chunks) - 1
+            text = ch + ("" if last else "\n")
+            if text:
+                lines[-1].append(("lit", text))
+            if not last:
+                lines.append([])
+    return [tuple(l) for l in lines if l]
+
+
 def _split_emit(ev):
     """One emit per output line: a template with newlines inside becomes several emits (same site, same context)."""
     pieces = [[]]
@@ -1253,8 +1271,10 @@ class Extractor:
             if CANON:
                 if getattr(self, "CE", None) is None:
                     self.CE = CallExpander(self.F)
-                for parts, extra in canon_parts(nf[1], self.CE):
-                    out.append(Emit(fn, e, fa, parts, ctx + extra, how, len(out), e["recv"]))
+                # line by line: a choice inside one line of a multi-line template does not make the other lines conditional
+                for line in _lines_of_parts(nf[1]):
+                    for parts, extra in canon_parts(line, self.CE):
+                        out.append(Emit(fn, e, fa, parts, ctx + extra, how, len(out), e["recv"]))
             else:
                 out.append(Emit(fn, e, fa, nf[1], ctx, how, len(out), e["recv"]))
             return
@@ -1908,6 +1928,8 @@ def canon_parts(parts, CE, limit=24):
             variants = [(v + list(sp), c + sc) for v, c in variants for sp, sc in subs][:limit]
     out = []
     for v, c in variants:
+        # the same decision taken for two holes of one template is one condition
+        c = tuple(dict.fromkeys(c))
         merged = []
         for p in v:
             if p[0] == "lit" and merged and merged[-1][0] == "lit":
